@@ -175,8 +175,8 @@ func CheckC16(env *core.Env, rep *core.Report) *core.Result {
 		cases = append(cases, c)
 	}
 	e.note("Formats", r, fmt.Sprintf("%d abstract configurations: the default, every single deviation and every pair of deviations over 16 features (pairwise coverage of key x shape)", len(cases)))
-	if len(cases) != 368 {
-		core.Broken("Formats emitted %d vectors, expected 368", len(cases))
+	if len(cases) != 394 {
+		core.Broken("Formats emitted %d vectors, expected 394", len(cases))
 	}
 	sort.Slice(cases, func(i, j int) bool { return cases[i].dev() < cases[j].dev() })
 	sel := cases
@@ -208,7 +208,7 @@ func CheckC16(env *core.Env, rep *core.Report) *core.Result {
 			mainDoc, imp := buildAbstract(c, trace)
 			if imp != nil {
 				impFmt := f
-				if c.val("import") == "cross" {
+				if c.val("import") == "cross" || c.val("import") == "mixed" {
 					impFmt = formats[(fi+1)%3]
 				}
 				b, ok := serialise(imp, impFmt)
@@ -217,6 +217,12 @@ func CheckC16(env *core.Env, rep *core.Report) *core.Result {
 				}
 				_ = ioutil.WriteFile(filepath.Join(d, "imp."+impFmt), b, 0o644)
 				mainDoc["import"] = L{"imp." + impFmt}
+				if c.val("import") == "mixed" {
+					// then a second import in the importer's own format
+					b2, _ := serialise(M{"tasks": M{"imported2": M{"command": L{"true"}, "env": M{"I2": "x"}}}}, f)
+					_ = ioutil.WriteFile(filepath.Join(d, "imp2."+f), b2, 0o644)
+					mainDoc["import"] = L{"imp." + impFmt, "imp2." + f}
+				}
 			}
 			b, ok := serialise(mainDoc, f)
 			if !ok {
